@@ -614,7 +614,7 @@ void op_nist(const Case& c, TaskCtx& t, Outcome& o) {
       mb.readonly(true);
       mp = mb.p;
     }
-    unsigned long long smlen = 0;
+    unsigned long long smlen = 0xdeadbeefcafef00dULL; // a store narrower than the variable leaves garbage behind
     int rc = libcall(t, [&] { return na.sign(sm.p, &smlen, mp, msg.size(), skb.p); });
     skb.readonly(false);
     o.digest = digest_of(rc, smlen, rc == 0 ? sm.p : nullptr, rc == 0 ? (size_t)std::min<unsigned long long>(smlen, smcap) : 0);
@@ -760,7 +760,7 @@ void op_nist(const Case& c, TaskCtx& t, Outcome& o) {
       mp = mout.p;
       smb.readonly(true);
     }
-    unsigned long long mlen = 0xdeadbeef;
+    unsigned long long mlen = 0xdeadbeefcafef00dULL;
     t.env.perm_budget = 0;
     int rc = libcall(t, [&] { return na.open(mp, &mlen, smb.p, smlen, pkb.p); });
     if (ov == "disjoint")
